@@ -234,42 +234,6 @@ example : (model "x\n .\n .".toList).e1 = "x\n .".toList ∧ (model "x\n .\n .".
 
 /-! ## fixpoint, first-line clause, safety of the field classes, and the whole property -/
 
-/-- scanning a boundary-free prefix (possibly empty) that is followed by `\n`, from a fresh line -/
-theorem splitlinesAux_line (l rest : Str) (h : NoB l) :
-    splitlinesAux (l ++ '\n' :: rest) [] false = l :: splitlinesAux rest [] false := by
-  have hnl : ('\n' : Char) ≠ '\r' := by decide
-  cases l with
-  | nil => simp [splitlinesAux, nl_boundary, hnl]
-  | cons c cs =>
-    rw [splitlinesAux_prefix (c :: cs) _ [] false h (by simp)]
-    simp [splitlinesAux, nl_boundary, hnl]
-
-theorem splitlinesAux_last (l : Str) (h : NoB l) :
-    splitlinesAux l [] false = if l.isEmpty then [] else [l] := by
-  cases l with
-  | nil => simp [splitlinesAux]
-  | cons c cs => simpa using splitlinesAux_single (c :: cs) h (by simp)
-
-/-- drop one trailing empty line -/
-def dropLastEmpty : List Str → List Str
-  | [] => []
-  | [l] => if l.isEmpty then [] else [l]
-  | l :: m :: ms => l :: dropLastEmpty (m :: ms)
-
-/-- **inversion of the `"\n"` join** for boundary-free pieces, some of which may be empty:
-`splitlines` gives the pieces back except that one trailing empty piece is dropped. -/
-theorem splitlines_joinNl (ls : List Str) (h : ∀ l ∈ ls, NoB l) :
-    splitlines (joinNl ls) = dropLastEmpty ls := by
-  unfold splitlines
-  induction ls with
-  | nil => simp [joinNl, splitlinesAux, dropLastEmpty]
-  | cons l ls ih =>
-    cases ls with
-    | nil => simpa [joinNl, dropLastEmpty] using splitlinesAux_last l (h l (by simp))
-    | cons m ms =>
-      have e : joinNl (l :: m :: ms) = l ++ '\n' :: joinNl (m :: ms) := by simp [joinNl]
-      rw [e, splitlinesAux_line l _ (h l (by simp)), ih (fun x hx => h x (by simp [hx]))]
-      simp [dropLastEmpty]
 
 /-! ### trailing empty pieces -/
 
